@@ -35,7 +35,7 @@ func isReservedHeader(k string) bool {
 	switch k {
 	case "content-type", "user-agent", "grpc-message-type", "grpc-encoding",
 		"grpc-message", "grpc-status", "grpc-timeout",
-		"grpc-status-details", "grpc-status-details-bin", "te":
+		"grpc-status-details", "grpc-status-details-bin", "te", "trailer":
 		return true
 	default:
 		return false
